@@ -30,7 +30,9 @@ func init() {
 			"collected triangle; every collected triangle is deleted; one triangle {edge, p} is stored per boundary edge. DEL-SUPER: the starting triangle is the appended enclosing vertices; after the last " +
 			"insertion a triangle is deleted exactly when one of its three ids is ≥ len(input). DEL-INSERT: every input point is inserted. DEL-VERT: position i = (input[i].x, 0, input[i].y) copied from the " +
 			"final version of the list the ids refer to, indices = the three different ids of every triangle. DEL-INPUT: nothing stores into the input list (its appended / sub-sliced versions, its working copies) and no call that can write or " +
-			"permute a slice (sort.Sort, sort.Slice, slices.Sort*, copy into it, a repository function that stores through its slice parameter) receives it on any path, in the pipeline and in both mesh builders. DEL-DEP: the bounding box behind the enclosing triangle reads both coordinates of every input point.",
+			"permute a slice (sort.Sort, sort.Slice, slices.Sort*, copy into it, a repository function that stores through its slice parameter) receives it on any path, in the pipeline and in both mesh builders. DEL-SAME-POINTS: the list the " +
+			"predicates are evaluated on (and the list a mesh builder hands to the triangulating function) is the input list, an exact copy (append / copy / slices.Clone / element-wise loop), or an element-wise image (a·x + tx, a·y + ty) with ONE " +
+			"factor a for both axes, the same for every point — decided by an affine decomposition of the stored coordinates; per-axis factors that differ (anisotropic normalisation) are a violation. DEL-DEP: the bounding box behind the enclosing triangle reads both coordinates of every input point.",
 		Assumptions: []string{
 			"real arithmetic (no rounding); the input is in general position (no three points collinear, no four cocircular, ≥ 3 points), so orientation and in-circle determinants are never 0 and the bounding box of the input has positive width and height",
 			"the rules are necessary conditions only: that the enclosing triangle really encloses every input (its size is a guess in the source), that holes are star-shaped, and the Delaunay / non-overlap property of the result are NOT decided",
@@ -155,6 +157,7 @@ func run(c *props.Ctx) {
 	R.Floor("DEL-SUPER", 2)
 	R.Floor("DEL-HOLE", 2)
 	R.Floor("DEL-INPUT", 2)
+	R.Floor("DEL-SAME-POINTS", 2)
 	if os.Getenv("C20_DEBUG") != "" {
 		for _, o := range R.Obs {
 			fmt.Printf("  [%s] %-13s %-50s %s %s\n", o.Verdict, o.Rule, o.Construct, o.Msg, fmt.Sprint(o.Facts))
@@ -195,7 +198,8 @@ func (k *K) pipeline(r *rec, g *ssa.Function, preset func(pp *pipe, args []c17.V
 	}
 	pp.fl = buildFlow(pp.res)
 	pp.findCopies()
-	rules := []string{"fan", "seed", "enclose", "collect", "remove", "boundary", "cleanup", "insert"}
+	pp.findImages()
+	rules := []string{"fan", "points", "seed", "enclose", "collect", "remove", "boundary", "cleanup", "insert"}
 	if preset != nil {
 		rules = preset(pp, args)
 	} else {
@@ -209,6 +213,8 @@ func (k *K) pipeline(r *rec, g *ssa.Function, preset func(pp *pipe, args []c17.V
 		switch rule {
 		case "fan":
 			pp.ruleFan()
+		case "points":
+			pp.ruleSamePoints()
 		case "seed":
 			pp.ruleSeed()
 		case "enclose":
@@ -226,7 +232,7 @@ func (k *K) pipeline(r *rec, g *ssa.Function, preset func(pp *pipe, args []c17.V
 		}
 	}
 	if preset == nil {
-		k.ruleInput(r, pp.sub("input"), pp.pos, pp.res, pp.inputLike, nil)
+		k.ruleInput(r, pp.sub("input"), pp.pos, pp.res, pp.inputLike, nil, pp.exemptStores())
 	}
 	return pp
 }
@@ -250,6 +256,7 @@ var controlRule = map[string]string{
 	"Boundary": "DEL-HOLE",
 	"Mesh":     "DEL-VERT",
 	"Input":    "DEL-INPUT",
+	"Points":   "DEL-SAME-POINTS",
 }
 
 func (k *K) control(fn *ssa.Function, W int, WKnown bool) {
@@ -288,7 +295,7 @@ func (k *K) control(fn *ssa.Function, W int, WKnown bool) {
 			pp.fl = buildFlow(pp.res)
 			pp.ruleBoundary()
 		}
-	case "Mesh", "Input":
+	case "Mesh", "Input", "Points":
 		k.vert(r, fn)
 	default:
 		k.c.R.Note("control %s is of no known kind", fn.Name())
